@@ -46,7 +46,7 @@ Lemma write_rel c crit x a b :
   numcfg c crit -> Rel c crit x a ->
   exists s w' s' rot, s_flw x = Some s /\ f_poisoned s = false /\
     write_buffer s (s_w x) b = (Ok tt, w', s', rot)
-    /\ Rel c crit {| s_flw := Some s'; s_w := w'; s_tl := [] |} (a_step a (OWrite b) rot)
+    /\ Rel c crit {| s_flw := Some s'; s_w := w'; s_tl := []; s_dead := s_dead x |} (a_step a (OWrite b) rot)
     /\ (forall m, crit = CSize m ->
           rot = (m <? N.of_nat (length (match a with Some (_, cu) => cu | None => [] end)))%N).
 Proof.
@@ -83,6 +83,14 @@ Qed.
 Lemma numinv_env c w w' wr closed : NumInv c w wr closed -> wfs w' = wfs w -> quiet w' -> NumInv c w' wr closed.
 Proof. intros [Q W Hc Hcp Hcl Hon Hwr Hcap] F Q'. constructor; try rewrite F; assumption. Qed.
 
+(* the configurations covered are synchronous: a step is a step of the synchronous handle *)
+Lemma step_sync_rel c crit x a o : numcfg c crit -> Rel c crit x a -> step x o = sync_step x o.
+Proof.
+  intros [_ [_ [_ Ha]]] [_ [_ R]]. unfold step. destruct a as [[closed cur]|].
+  - destruct R as [wr [roll [Es _]]]. rewrite Es. unfold is_async, st_of. cbn [f_cfg]. rewrite Ha. reflexivity.
+  - destruct R as [Es _]. rewrite Es. unfold is_async, new_flw. cbn [f_cfg]. rewrite Ha. reflexivity.
+Qed.
+
 (* one basic operation *)
 Lemma step_rel c crit x a o :
   numcfg c crit -> Rel c crit x a -> basic_op o ->
@@ -92,7 +100,7 @@ Lemma step_rel c crit x a o :
         ob = ObsRes 0 (m <? N.of_nat (length (match a with Some (_, cu) => cu | None => [] end)))%N)
   /\ (wfs (s_w x') = wfs (s_w x) \/ exists v, a_step a o (rot_of ob) = Some v).
 Proof.
-  intros Hcfg R Hb. destruct o; try contradiction; cbn [step].
+  intros Hcfg R Hb. rewrite (step_sync_rel c crit x a o Hcfg R). destruct o; try contradiction; cbn [sync_step].
   - (* OWrite *)
     destruct (write_rel c crit x a b Hcfg R) as [s [w' [s' [rot [Es [Hp [E [R' C]]]]]]]].
     rewrite Es, Hp. rewrite (proj1 R). cbn [app]. rewrite E. cbn [rot_of]. split; [exact R'|]. split.
@@ -175,14 +183,14 @@ Proof.
   unfold cur_view. rewrite C1. cbn [wr' wpend set_acts wfs]. rewrite app_nil_r. reflexivity.
 Qed.
 
-Lemma stop_rel c crit x a : Rel c crit x a ->
+Lemma stop_rel c crit x a : numcfg c crit -> Rel c crit x a ->
   let '(x', _) := step x OStop in
   match a with
   | None => names (wfs (s_w x')) = []
   | Some (closed, cur) => reader_view c (wfs (s_w x')) closed cur
   end.
 Proof.
-  intros [Ht [Ha R]]. cbn [step]. destruct a as [[closed cur]|].
+  intros Hcfg R0. rewrite (step_sync_rel c crit x a OStop Hcfg R0). destruct R0 as [Ht [Ha R]]. cbn [sync_step]. destruct a as [[closed cur]|].
   - destruct R as [wr [roll [Es [I [V [Z RS]]]]]]. rewrite Es. cbn [st_of f_poisoned]. unfold drop_state.
     destruct (shutdown_active c (s_w x) wr closed roll I Ha) as [w1 [wr1 [E1 [I1 [V1 [P1 A1]]]]]]. fold (st_of c (length closed) roll wr). rewrite E1.
     destruct (shutdown_active c w1 wr1 closed roll I1 A1) as [w2 [wr2 [E2 [I2 [V2 [P2 A2]]]]]]. rewrite E2.
